@@ -87,10 +87,23 @@ type seed struct {
 }
 
 type feeder struct {
-	r      *mc.Run
-	w      *world.World
-	target string
-	n      int64
+	r       *mc.Run
+	w       *world.World
+	target  string
+	n       int64
+	stopped bool
+}
+
+// over reports (once) that the internal deadline passed; enumerations stop there.
+func (fd *feeder) over() bool {
+	if fd.stopped {
+		return true
+	}
+	if fd.n%256 == 0 && fd.r.Expired() {
+		fd.stopped = true
+		fd.r.NotExhaustive("deadline in target " + fd.target)
+	}
+	return fd.stopped
 }
 
 func (fd *feeder) fail(sd, mut string, b []byte, sig, msg string) {
@@ -137,6 +150,9 @@ func (fd *feeder) runListener(l *listener) {
 	}
 	for _, sd := range l.seeds {
 		variants(sd.b, fd.r.Thorough(), func(mut string, b []byte) {
+			if fd.over() {
+				return
+			}
 			fd.n++
 			fd.r.Journal(fmt.Sprintf("%s %s %s", l.name, sd.name, mut))
 			fd.r.Evals++
@@ -365,6 +381,9 @@ func (fd *feeder) runKE() {
 	prov := ntske.NewProvider()
 	recs := keRecords()
 	try := func(name string, stream []byte, closeAfter bool) {
+		if fd.over() {
+			return
+		}
 		fd.n++
 		fd.r.Journal("ntske-handler " + name)
 		fd.r.Evals++
@@ -453,6 +472,9 @@ func (fd *feeder) runClient(ct *clientTarget) {
 	seen := w.Net.NumSent()
 	// one call per crafted datagram: the datagram is the first thing the client receives
 	one := func(sdname, mut string, mk func(d *vnet.Datagram) ([]byte, netip.AddrPort)) {
+		if fd.over() {
+			return
+		}
 		fd.n++
 		fd.r.Journal(fmt.Sprintf("%s %s %s", ct.name, sdname, mut))
 		fd.r.Evals++
@@ -708,6 +730,9 @@ func clientTargets(fd *feeder) []*clientTarget {
 
 func (fd *feeder) decoders() {
 	call := func(name string, b []byte, f func()) {
+		if fd.over() {
+			return
+		}
 		fd.n++
 		fd.r.Evals++
 		fd.r.Distinct++
